@@ -73,12 +73,14 @@ type l1World struct {
 	lastRes     *abci.ResponseFinalizeBlock
 	ownAll      bool // C16 after a re-import: every deviation from the model is a deviation from the original chain
 	replicas    []*l1Replica
-	recent      [][]byte // recently broadcast transactions (client traffic re-uses them)
-	avoidBridge uint64   // see pickBridge
-	burstTail   bool     // the last operation of a burst block: a deletion somewhere in the long log
-	burstBridge uint64   // while non-zero every generated operation is an output proposal for this bridge (long logs)
-	lenient     bool     // deviations owned by other properties are logged, not fatal (state comparison right after a genesis restart)
-	sidePct     int      // % of schedule points with client traffic on discarded branches
+	recent      [][]byte  // recently broadcast transactions (client traffic re-uses them)
+	avoidBridge uint64    // see pickBridge
+	bigClaim    *bigClaim // a large committed withdrawal set waiting to be claimed in one block
+	bigNext     bool      // the next proposal commits to a large fresh withdrawal set
+	burstTail   bool      // the last operation of a burst block: a deletion somewhere in the long log
+	burstBridge uint64    // while non-zero every generated operation is an output proposal for this bridge (long logs)
+	lenient     bool      // deviations owned by other properties are logged, not fatal (state comparison right after a genesis restart)
+	sidePct     int       // % of schedule points with client traffic on discarded branches
 	genesis     *node.L1Genesis
 }
 
@@ -297,7 +299,7 @@ func (w *l1World) genConfig() ophosttypes.BridgeConfig {
 			period = 0
 		}
 	}
-	return ophosttypes.BridgeConfig{
+	cfg := ophosttypes.BridgeConfig{
 		Challenger: w.pickUser(), Proposer: w.pickUser(),
 		BatchInfo:             ophosttypes.BatchInfo{Submitter: w.pickUser(), ChainType: ophosttypes.BatchInfo_ChainType(1 + w.r.Intn(2))},
 		SubmissionInterval:    time.Duration(1+w.r.Intn(100)) * time.Second,
@@ -306,6 +308,22 @@ func (w *l1World) genConfig() ophosttypes.BridgeConfig {
 		OracleEnabled:         w.r.Chance(1, 2),
 		Metadata:              w.genMetadata(),
 	}
+	if w.r.Chance(1, 25) {
+		// a half-filled form: several required fields are missing at once
+		for _, i := range []int{w.r.Intn(4), w.r.Intn(4)} {
+			switch i {
+			case 0:
+				cfg.BatchInfo.Submitter = ""
+			case 1:
+				cfg.SubmissionStartHeight = 0
+			case 2:
+				cfg.SubmissionInterval = 0
+			default:
+				cfg.BatchInfo.ChainType = ophosttypes.BatchInfo_CHAIN_TYPE_UNSPECIFIED
+			}
+		}
+	}
+	return cfg
 }
 
 // genAmount picks an amount relative to a reference balance.
@@ -378,8 +396,16 @@ func (w *l1World) genOp(spec *modelL1, bc blockCtx) (sdk.Msg, string, string) {
 		sa, _ := sdk.AccAddressFromBech32(sender)
 		d := w.denoms[w.r.Intn(len(w.denoms))]
 		amt := w.genAmount(spec.Bal.get(sa, d))
+		if w.r.Chance(1, 25) {
+			amt = math.NewInt(-int64(1 + w.r.Intn(1000))) // a negative amount survives the wire encoding
+		}
+		if amt.IsZero() && w.r.Chance(1, 3) {
+			d = []string{"a", "1coin", "bad denom!", ""}[w.r.Intn(4)] // an "account creation" deposit naming something that is not a denom
+		}
 		to := w.pickUser()
-		if w.r.Chance(1, 5) {
+		if w.r.Chance(1, 25) {
+			to = ""
+		} else if w.r.Chance(1, 5) {
 			to = []string{"0x1", "init1malformed", "l2-user-🙂", strings.Repeat("a", 200), " ", "\t", " l2_addr", "l2_addr\u00a0 "}[w.r.Intn(8)]
 		}
 		var data []byte
@@ -570,7 +596,7 @@ func short(s string) string {
 // genRoot fabricates what the simulated L2 + executor would commit to: a tree
 // over new (and possibly earlier) withdrawals of this bridge.
 func (w *l1World) genRoot(spec *modelL1, b *mBridge) (prover.Hash, string) {
-	if w.r.Chance(1, 10) {
+	if !w.bigNext && w.r.Chance(1, 10) {
 		return w.randHash(), "junk-root"
 	}
 	u := w.univ[b.ID]
@@ -587,15 +613,19 @@ func (w *l1World) genRoot(spec *modelL1, b *mBridge) (prover.Hash, string) {
 	if w.r.Chance(1, 8) {
 		nNew = 8 + w.r.Intn(10)
 	}
+	big := w.bigNext
+	if big {
+		leaves, nNew = nil, 105+w.r.Intn(60)
+	}
 	for i := 0; i < nNew; i++ {
 		w.wseq[b.ID]++
 		d := w.denoms[w.r.Intn(len(w.denoms))]
 		amt := w.genAmount(spec.Bal.get(prover.Escrow(b.ID), d))
-		if !amt.IsPositive() || !amt.IsUint64() {
+		if !amt.IsPositive() || !amt.IsUint64() || big {
 			amt = math.NewInt(1)
 		}
 		wd := withdrawal{Seq: w.wseq[b.ID], From: fmt.Sprintf("l2user%d", w.r.Intn(5)), To: w.pickUser(), Denom: d, Amount: amt.Uint64()}
-		if w.r.Chance(1, 10) && len(u) > 0 {
+		if w.r.Chance(1, 10) && len(u) > 0 && !big {
 			// same sender/recipient/denom/amount as an earlier one, different sequence
 			o := u[w.r.Intn(len(u))]
 			wd.From, wd.To, wd.Denom, wd.Amount = o.From, o.To, o.Denom, o.Amount
@@ -623,6 +653,13 @@ func hashes(hs []prover.Hash) [][]byte {
 		out[i] = append([]byte{}, hs[i][:]...)
 	}
 	return out
+}
+
+// bigClaim: a relayer catching up.  One output commits to well over a hundred small withdrawals; once it is
+// final they are all claimed in one block (sets longer than any page size or batch constant in the code).
+type bigClaim struct {
+	Bridge, Idx uint64
+	Root        prover.Hash
 }
 
 // genClaim builds an honest claim and, for the Byzantine share, perturbs it.
@@ -689,11 +726,18 @@ func (w *l1World) genClaim(spec *modelL1, bc blockCtx) (sdk.Msg, string) {
 	}
 	var tags []string
 	for k := 0; k < np; k++ {
-		pick := w.r.Intn(24)
+		pick := w.r.Intn(25)
 		if spec.Bal.get(prover.Escrow(b.ID), msg.Amount.Denom).BitLen() > 64 && w.r.Chance(1, 3) {
 			pick = 10 // the escrow could afford amount + 2^64: aim there
 		}
 		switch pick {
+		case 24:
+			// an all-zero element somewhere in the proof ("padding" of a fixed-height prover)
+			i := w.r.Intn(len(msg.WithdrawalProofs) + 1)
+			ps := append([][]byte{}, msg.WithdrawalProofs[:i]...)
+			ps = append(ps, make([]byte, 32))
+			msg.WithdrawalProofs = append(ps, msg.WithdrawalProofs[i:]...)
+			tags = append(tags, "zero-proof-element")
 		case 23:
 			// the bridge's own L2 name of the token instead of the L1 denom
 			msg.Amount.Denom = prover.L2Denom(b.ID, msg.Amount.Denom)
@@ -1026,6 +1070,53 @@ func (w *l1World) runBlock() *core.Violation {
 		r.Probe("propose.burst")
 	}
 	defer func() { w.burstBridge, w.burstTail = 0, false }()
+	var bigTxs []pendingTx
+	if w.p.W["claimburst"] > 0 && w.burstBridge == 0 {
+		switch {
+		case w.bigClaim == nil && r.Chance(w.p.W["claimburst"], 1000):
+			// step 1: the proposer of some bridge commits to a large fresh withdrawal set
+			if ids := spec.bridgeIDs(); len(ids) > 0 {
+				b := spec.Bridges[ids[r.Intn(len(ids))]]
+				var prevBlk uint64
+				if o := b.Outputs[b.NextOutIdx-1]; o != nil {
+					prevBlk = o.L2Block
+				}
+				if prevBlk < ^uint64(0)-1 {
+					w.bigNext = true
+					root, desc := w.genRoot(spec, b)
+					w.bigNext = false
+					msg := &ophosttypes.MsgProposeOutput{Proposer: b.Cfg.Proposer, BridgeId: b.ID, OutputIndex: b.NextOutIdx, L2BlockNumber: prevBlk + 1, OutputRoot: root[:]}
+					bigTxs = append(bigTxs, pendingTx{Msg: msg, Kind: "propose", Desc: fmt.Sprintf("bridge=%d idx=%d l2block=%d LARGE %s", b.ID, b.NextOutIdx, prevBlk+1, desc)})
+					w.bigClaim = &bigClaim{Bridge: b.ID, Idx: b.NextOutIdx, Root: root}
+					r.Probe("claim.burst-committed")
+				}
+			}
+		case w.bigClaim != nil:
+			// step 2: once that output is final (and still there), every leaf is claimed in one block
+			b := spec.Bridges[w.bigClaim.Bridge]
+			var o *mOutput
+			if b != nil {
+				o = b.Outputs[w.bigClaim.Idx]
+			}
+			switch {
+			case o == nil || o.Root != w.bigClaim.Root:
+				w.bigClaim = nil // deleted or never accepted
+			case spec.fin(b, w.bigClaim.Idx, bc.Height, bc.Time) == triYes:
+				c := w.commits[o.Root]
+				for pos := range c.Leaves {
+					wd := w.univ[b.ID][c.Leaves[pos]]
+					msg := &ophosttypes.MsgFinalizeTokenWithdrawal{
+						Sender: w.pickUser(), BridgeId: b.ID, OutputIndex: w.bigClaim.Idx, Sequence: wd.Seq, From: wd.From, To: wd.To,
+						Amount: sdk.Coin{Denom: wd.Denom, Amount: math.NewIntFromUint64(wd.Amount)}, Version: []byte{c.Version}, StorageRoot: append([]byte{}, c.Storage[:]...),
+						LastBlockHash: append([]byte{}, c.BlockHash[:]...), WithdrawalProofs: hashes(c.Tree.Proof(pos)),
+					}
+					bigTxs = append(bigTxs, pendingTx{Msg: msg, Kind: "claim", Desc: fmt.Sprintf("bridge=%d out=%d seq=%d %d%s (catch-up)", b.ID, w.bigClaim.Idx, wd.Seq, wd.Amount, wd.Denom)})
+				}
+				w.bigClaim = nil
+				r.Probe("claim.burst-claimed")
+			}
+		}
+	}
 	var txs []pendingTx
 	for i := 0; i < ntx; i++ {
 		w.burstTail = w.burstBridge != 0 && i == ntx-1 && r.Chance(1, 2)
@@ -1073,6 +1164,15 @@ func (w *l1World) runBlock() *core.Violation {
 		if !pt.LowGas && pt.Fault == "" {
 			w.specApply(spec, bmsgs, bc)
 		}
+	}
+	for _, pt := range bigTxs {
+		bz, err := node.BuildTx(w.enc, []sdk.Msg{pt.Msg}, node.TxOpts{})
+		if err != nil {
+			panic(fmt.Sprintf("BuildTx: %v", err))
+		}
+		pt.Bytes = bz
+		txs = append(txs, pt)
+		w.specApply(spec, []sdk.Msg{pt.Msg}, bc)
 	}
 	// crash plan
 	crash := ""
